@@ -44,6 +44,8 @@ GEN_SOURCES = {
                     "src/spake2/parameters/i1024.py", "src/spake2/parameters/i2048.py", "src/spake2/parameters/i3072.py", "src/spake2/parameters/all.py"],
     "ProtoShape.lean": ["src/spake2/spake2.py"],
     "EdShape.lean": ["src/spake2/ed25519_basic.py"],
+    "ProtoFlow.lean": ["src/spake2/spake2.py"],
+    "GroupShape.lean": ["src/spake2/groups.py", "src/spake2/ed25519_basic.py", "src/spake2/ed25519_group.py"],
 }
 GEN_DIR = os.path.join(LEAN, "Spake2Model", "Gen")
 PIN_DIR = os.path.join(LEAN, "GenPinned")
